@@ -596,6 +596,20 @@ func (e *Env) verifyFunc(it *Item) {
 			if label == "" {
 				label = fmt.Sprint(i)
 			}
+			// `opt trusted-posts a,b`: these post-conditions are assumptions about the function
+			// (listed in the evidence); everything else about it is verified
+			if tp := it.Opts["trusted-posts"]; tp != "" && c.Label != "" {
+				skip := false
+				for _, l := range strings.Split(tp, ",") {
+					if strings.TrimSpace(l) == c.Label {
+						skip = true
+					}
+				}
+				if skip {
+					e.trust("post-condition [" + c.Label + "] of " + funcQName(fn) + " is assumed, not verified (opt trusted-posts)")
+					continue
+				}
+			}
 			goal := post.boolTerm(c.Expr)
 			if hasCases {
 				e.obligeCases("post", label, site.st.pc, caseTerms, goal)
